@@ -106,7 +106,7 @@ type kindEngine struct {
 func (e *kindEngine) relate(tagNF, subj string) (kmask, bool) {
 	mp := modPath + "."
 	switch tagNF {
-	case "(reflect.Value).Kind(" + subj + ")", "invoke Kind((reflect.Value).Type(" + subj + "))":
+	case "(reflect.Value).Kind(" + subj + ")", "invoke Kind((reflect.Value).Type(" + subj + "))", "invoke Kind(" + subj + ")":
 		return 0, true
 	case "invoke Kind(" + mp + "chaseTypePointers((reflect.Value).Type(" + subj + ")))":
 		return km(kPtr), true
@@ -476,4 +476,224 @@ func globalTypeKinds(c *Ctx) map[string]kmask {
 		}
 	})
 	return out
+}
+
+// stringConvertRule (R07o): reflect.Value.Convert panics when the value is not convertible to the type. A string
+// (a setting's name on its way to becoming a map key) converts to every type of kind String and to nothing else the
+// library can know about: an interface type takes it only if string implements it (interface{} does, fmt.Stringer
+// does not), and "kind Interface" does not tell the two apart.
+func stringConvertRule(c *Ctx, r *Report) {
+	r.Rule("R07o", "a string value is converted through reflect only to a type whose kind was tested to be String", 2)
+	kt, kinds := reflectKind(c)
+	e := &kindEngine{c: c, kt: kt, kinds: kinds, seen: map[string]bool{}, assumed: map[string]string{}, typeKinds: globalTypeKinds(c)}
+	n := 0
+	for _, fn := range c.SrcFuncs() {
+		if fn.Pkg != c.SSA[""] {
+			continue
+		}
+		for _, ci := range CallsIn(fn, false) {
+			call, ok := ci.(*ssa.Call)
+			if !ok {
+				continue
+			}
+			g := call.Call.StaticCallee()
+			if g == nil || g.String() != "(reflect.Value).Convert" || len(call.Call.Args) != 2 {
+				continue
+			}
+			// receiver: reflect.ValueOf(<string>)
+			isStr := false
+			if vc, ok := call.Call.Args[0].(*ssa.Call); ok && vc.Call.StaticCallee() != nil && vc.Call.StaticCallee().String() == "reflect.ValueOf" {
+				if mi, ok := vc.Call.Args[0].(*ssa.MakeInterface); ok {
+					if bt, ok := mi.X.Type().Underlying().(*types.Basic); ok && bt.Info()&types.IsString != 0 {
+						isStr = true
+					}
+				}
+			}
+			if !isStr {
+				continue
+			}
+			n++
+			b := newNF(c)
+			subj := b.Of(call.Call.Args[1]).String()
+			mask, notes := e.localMask(fn, b, subj, call.Block())
+			ok = mask&^km(kString) == 0
+			r.Check(ok, "R07o", c.FnName(fn), "string converted to a string kind", c.Pos(call.Pos()), "destination kind: "+mask.String(),
+				"a string is converted through reflect to a type that can have kind "+(mask&^km(kString)).String()+" here ("+strings.Join(notes, "; ")+"): Convert panics for a type the string is not convertible to — for kind Interface every interface with methods (fmt.Stringer, error)")
+		}
+	}
+	if n == 0 {
+		r.Trivial("R07o", "ucfg", "string converted to a string kind", "-", "no reflect conversion of a string value")
+	}
+}
+
+// mergeResultRule (R07p): reifyMergeValue chases the pointers of the value it merges into and can answer with the
+// value the pointers lead to (the map, the array, the new slice) instead of a value of the slot's own type. Its
+// callers are siblings: each stores the answer back into the slot it came from, and reflect.Value.Set /
+// SetMapIndex panic on a value that is not assignable to the slot. Every one of them therefore restores the
+// pointers (pointerize with the slot's type) — or has chased the slot itself before the call.
+func mergeResultRule(c *Ctx, r *Report) {
+	r.Rule("R07p", "what reifyMergeValue returns is stored into its slot (Set, SetMapIndex) through pointerize with the slot's type, unless the slot itself was pointer-chased before the call", 4)
+	rmv := c.Func("", "reifyMergeValue")
+	ptrz := c.Func("", "pointerize")
+	for _, fn := range c.SrcFuncs() {
+		if fn.Pkg != c.SSA[""] {
+			continue
+		}
+		for _, ci := range CallsTo(fn, rmv, false) {
+			call, ok := ci.(*ssa.Call)
+			if !ok || call.Referrers() == nil {
+				continue
+			}
+			var res ssa.Value
+			for _, ref := range *call.Referrers() {
+				if ex, ok := ref.(*ssa.Extract); ok && ex.Index == 0 {
+					res = ex
+				}
+			}
+			if res == nil {
+				continue
+			}
+			// the merge target
+			var target ssa.Value
+			for _, a := range call.Call.Args {
+				if isNamed(a.Type(), "reflect", "Value") {
+					target = a
+				}
+			}
+			chased := false
+			for _, s := range append(Sources(target), target) {
+				if tc, ok := s.(*ssa.Call); ok && tc.Call.StaticCallee() != nil && (tc.Call.StaticCallee().Name() == "chaseValuePointers" || tc.Call.StaticCallee().Name() == "chaseValue") {
+					chased = true
+				}
+			}
+			// stores of the result
+			Instrs(fn, false, func(in ssa.Instruction) {
+				sc, ok := in.(*ssa.Call)
+				if !ok || sc.Call.StaticCallee() == nil {
+					return
+				}
+				var stored ssa.Value
+				switch sc.Call.StaticCallee().String() {
+				case "(reflect.Value).Set":
+					stored = sc.Call.Args[1]
+				case "(reflect.Value).SetMapIndex":
+					stored = sc.Call.Args[2]
+				default:
+					return
+				}
+				direct, wrapped := false, false
+				for _, s := range append(Sources(stored), stored) {
+					if s == res {
+						direct = true
+					}
+					if pc, ok := s.(*ssa.Call); ok && IsCallTo(pc, ptrz) {
+						for _, a := range pc.Call.Args {
+							for _, s2 := range append(Sources(a), a) {
+								if s2 == res {
+									wrapped = true
+								}
+							}
+						}
+					}
+				}
+				if !direct && !wrapped {
+					return
+				}
+				ok2 := wrapped || chased
+				why := "through pointerize"
+				if !wrapped {
+					why = "the slot was pointer-chased before the merge"
+				}
+				if !ok2 {
+					// the store goes into the chased slot (whose type is what the merge answers with), or — when that
+					// is not settable — into the interface that holds it
+					isChaseOf := func(v ssa.Value) bool {
+						for _, s := range append(Sources(v), v) {
+							if tc, ok := s.(*ssa.Call); ok && tc.Call.StaticCallee() != nil && strings.HasPrefix(tc.Call.StaticCallee().Name(), "chaseValue") && len(tc.Call.Args) == 1 {
+								if tc.Call.Args[0] == target || SameValue(tc.Call.Args[0], target) || sameSrc(tc.Call.Args[0], target) {
+									return true
+								}
+							}
+						}
+						return false
+					}
+					if isChaseOf(sc.Call.Args[0]) {
+						ok2, why = true, "stored into the pointer-chased slot"
+					}
+					for _, cd := range DomConds(sc.Block()) {
+						if cs, ok := cd.V.(*ssa.Call); ok && !cd.Truth && cs.Call.StaticCallee() != nil && cs.Call.StaticCallee().String() == "(reflect.Value).CanSet" && isChaseOf(cs.Call.Args[0]) {
+							ok2, why = true, "the chased slot is not settable: the value is held by an interface, which takes any value"
+						}
+					}
+				}
+				r.Check(ok2, "R07p", c.FnName(fn), "merge result stored with its pointers", c.Pos(sc.Pos()), why,
+					"the value reifyMergeValue returns is stored back into its slot as it is: for a slot that already holds a non-nil pointer (a []*map[string]T element, a map[string]*[]T entry) the answer is the map / array / slice behind the pointer, and "+sc.Call.StaticCallee().Name()+" panics because it is not assignable to the pointer type")
+			})
+		}
+	}
+}
+
+// nilConfigArgRule (R07q): a *Config handed to an exported function and put into the tree (wrapped as a cfgSub) is a
+// node every later operation dereferences: its context is set right away, its fields are read by every walk. A nil
+// argument must be refused where it comes in.
+func nilConfigArgRule(c *Ctx, r *Report) {
+	r.Rule("R07q", "an exported function wraps a *Config parameter (other than its receiver) into a cfgSub node only under a test that it is not nil", 1)
+	n := 0
+	for _, fn := range c.SrcFuncs() {
+		if fn.Pkg != c.SSA[""] || fn.Parent() != nil {
+			continue
+		}
+		if o := fn.Object(); o == nil || !o.Exported() {
+			continue
+		}
+		first := 0
+		if rc := fn.Signature.Recv(); rc != nil {
+			first = 1
+			// a method is public only on an exported type
+			rt := rc.Type()
+			if pt, ok := rt.(*types.Pointer); ok {
+				rt = pt.Elem()
+			}
+			if nt, ok := rt.(*types.Named); !ok || !nt.Obj().Exported() {
+				continue
+			}
+		}
+		Instrs(fn, false, func(in ssa.Instruction) {
+			st, ok := in.(*ssa.Store)
+			if !ok {
+				return
+			}
+			nt, f, ok := FieldOf(st.Addr)
+			if !ok || nt.Obj().Name() != "cfgSub" || f != "c" {
+				return
+			}
+			for _, s := range Sources(st.Val) {
+				p, isP := s.(*ssa.Parameter)
+				if !isP {
+					continue
+				}
+				idx := -1
+				for i, q := range fn.Params {
+					if q == p {
+						idx = i
+					}
+				}
+				if idx < first {
+					continue
+				}
+				n++
+				guarded := false
+				for _, cd := range ExpandConds(DomConds(st.Block())) {
+					if tv, neq, ok := nilTest(cd.V); ok && tv == ssa.Value(p) && cd.Truth == neq {
+						guarded = true
+					}
+				}
+				r.Check(guarded, "R07q", c.FnName(fn), "nil config refused", c.Pos(st.Pos()), "wrapped under "+p.Name()+" != nil",
+					"the *Config parameter "+p.Name()+" is put into the tree without a nil test: "+fn.Name()+"(…, nil) dereferences the nil pointer (the new node's context is set at once) and the call panics")
+			}
+		})
+	}
+	if n == 0 {
+		r.add("R07q", "ucfg", "nil config refused", "-", Undecided, true, "no exported function wraps a *Config parameter")
+	}
 }
